@@ -105,6 +105,65 @@ func c06(c *Ctx) {
 			c.MustFact(r, "success-only-if-format-ok", IsNil(CallRes(Callee("grpc", "checkRecvPayload"), 0)))
 		}
 	})
+	c.Ob("error-discipline", "R2", "the message reader, the decompression step and the compression step never continue past a failing read / decompressor / compressor to a success return (a failed step never yields a message)", 6, func() {
+		n := 0
+		for _, fn := range []string{"parser.recvMsg", "recvAndDecompress", "decompress", "compress", "recv", "gzipDecompressor.doWithMaxSize", "gzipDecompressor.Do"} {
+			if f := c.P.LookupFunc("grpc", fn); f != nil && f.Blocks != nil {
+				n += c.ErrorsPropagate(f, fn, nil)
+			}
+		}
+		c.Expect(n >= 6, nil, nil, "error-sites", "fewer tested step errors than on the reviewed tree")
+		// the payload-format verdict: a non-nil status ends the receive, a nil one does not
+		rd := c.fn("grpc", "recvAndDecompress")
+		chk := one(c, "checkRecvPayload call", callsIn(rd, Callee("grpc", "checkRecvPayload")))
+		verdict := func(v ssa.Value) bool { return v == chk.Value() }
+		for _, ci := range callsIn(rd, Callee("internal/status", "Status.Err")) {
+			c.MustFact(ci, "format-error-returned-only-when-there-is-one", NotNil(verdict))
+		}
+		for _, ci := range callsIn(rd, Callee("grpc", "decompress")) {
+			c.MustFact(ci, "decompress-only-after-a-clean-format-verdict", IsNil(verdict))
+		}
+		// "a decompressor is available" handed to the format check means: a registered compressor OR a legacy decompressor
+		have, ok := chk.Common().Args[2].(*ssa.Phi)
+		okHave := false
+		if ok && len(have.Edges) == 2 {
+			nT, nO := 0, 0
+			for i, e := range have.Edges {
+				pr := have.Block().Preds[i]
+				fs := append(append([]Fact(nil), FactsAtBlock(pr)...), edgeOnlyFacts(pr, have.Block())...)
+				if ConstBool(true)(e) {
+					if _, h := hasFact(fs, NotNil(OrV(ParamV("compressor"), ParamV("dc")))); h {
+						nT++
+					}
+				} else if b, isB := e.(*ssa.BinOp); isB && b.Op == token.NEQ && ConstNil(b.Y) && OrV(ParamV("compressor"), ParamV("dc"))(b.X) {
+					nO++
+				}
+			}
+			okHave = nT == 1 && nO == 1
+		}
+		c.Expect(okHave, chk, rd, "decoder-available-means-either-kind", "the format check is told a decompressor is available under a condition other than 'registered compressor or legacy decompressor present'")
+		// a frame body cut short is an unexpected EOF, never a clean end of stream
+		rm := c.fn("grpc", "parser.recvMsg")
+		eof := GlobalLoad(c.konst("std:io", "EOF"))
+		for _, r := range returnsOf(rm) {
+			if r.Block() == rm.Recover || ConstNil(strip(r.Results[2])) {
+				continue
+			}
+			if ph, isPhi := r.Results[2].(*ssa.Phi); isPhi {
+				for i, e := range ph.Edges {
+					pr := ph.Block().Preds[i]
+					fs := append(append([]Fact(nil), FactsAtBlock(pr)...), edgeOnlyFacts(pr, ph.Block())...)
+					if GlobalLoad(c.konst("std:io", "ErrUnexpectedEOF"))(e) {
+						_, h := hasFact(fs, Cmp(AnyV, token.EQL, eof))
+						c.Expect(h, r, rm, "unexpected-EOF-replaces-exactly-EOF", "io.ErrUnexpectedEOF replaces an error other than io.EOF")
+					} else {
+						_, h := hasFact(fs, Cmp(func(v ssa.Value) bool { return v == e }, token.NEQ, eof))
+						c.Expect(h, r, rm, "truncated-body-never-reported-as-clean-EOF", "a read error of the frame body can be returned as io.EOF (a message cut short would look like a clean end of stream)")
+					}
+				}
+			}
+		}
+	})
 	c.Ob("header-layout", "R6", "writer and reader agree on the frame header: byte 0 is the compression flag, bytes 1..4 the big-endian length (same constant offset on both sides), header length 5", 4, func() {
 		w := c.fn("grpc", "msgHeader")
 		r := c.fn("grpc", "parser.recvMsg")
